@@ -15,6 +15,7 @@ import ProphyModel.Api
 import ProphyModel.Typing
 import ProphyModel.Copy
 import ProphyModel.Files
+import ProphyModel.FilesL
 import ProphyModel.Patch
 import ProphyModel.Accept
 import ProphyModel.WF
@@ -252,6 +253,34 @@ def handle (st : DState) (j : Json) : Except String (DState × Json) := do
         ("parsed", Json.arr (r.parsed.map fun g => Json.str (g.dir ++ "/" ++ g.leaf)).toArray)]).toArray)])
     | .error (.notFound l) => pure (st, Json.mkObj [("error", "not found"), ("leaf", l)])
     | .error (.cyclic f) => pure (st, Json.mkObj [("error", "cyclic"), ("leaf", f.leaf)])
+  | "prophyc_files_links" =>
+    let strs := fun (x : Json) => do pure ((← x.getArr?).toList.mapM (·.getStr?))
+    let entries ← (← getArr j "entries").toList.mapM (fun e => do
+      pure ({ path := ⟨← getStr e "dir", ← getStr e "leaf"⟩, target := ⟨← getStr e "tdir", ← getStr e "tleaf"⟩ } : FilesL.Entry))
+    let files ← (← getArr j "files").toList.mapM (fun f => do
+      pure ({ id := ⟨← getStr f "dir", ← getStr f "leaf"⟩,
+              includes := ← (← strs (← f.getObjVal? "includes")),
+              defines := ← (← strs (← f.getObjVal? "defines")) } : FilesL.File))
+    let dirs ← (← strs (← j.getObjVal? "include_dirs"))
+    let mains ← (← getArr j "mains").toList.mapM (fun f => do
+      pure (⟨← getStr f "dir", ← getStr f "leaf"⟩ : FilesL.Path))
+    let fs : FilesL.FS := { entries := entries, files := files }
+    let shapeJson := fun (sh : List (Nat × FilesL.Path)) =>
+      Json.arr (sh.map fun (d, g) => Json.arr #[Json.num d, Json.str (g.dir ++ "/" ++ g.leaf)]).toArray
+    let alone := Json.arr (mains.map (fun m =>
+      match FilesL.eval fs dirs (FilesL.fuelOf fs) [] m with
+      | .ok (_, vis, sh) => Json.mkObj [("visible", Json.arr (vis.map Json.str).toArray), ("shape", shapeJson sh)]
+      | .error _ => Json.null)).toArray
+    match FilesL.processMains fs dirs mains {} with
+    | .ok rs => pure (st, Json.mkObj [("results", Json.arr (rs.map fun (f, r) => Json.mkObj [
+        ("leaf", f.leaf), ("visible", Json.arr (r.visible.map Json.str).toArray),
+        ("parsed", Json.arr (r.parsed.map fun g => Json.str (g.dir ++ "/" ++ g.leaf)).toArray),
+        ("shape", shapeJson r.shape)]).toArray), ("alone", alone)])
+    | .error e =>
+      let kind := match e with
+        | .notFound _ => "notFound" | .cyclic _ => "cyclic" | .sameName _ => "sameName"
+        | .ambiguous _ _ => "ambiguous" | .tooDeep _ => "tooDeep"
+      pure (st, Json.mkObj [("error", kind), ("alone", alone)])
   | "isar_members" =>
     let dim : Option Patch.Dim := match j.getObjVal? "dim" with
       | .ok (.obj _) =>
